@@ -281,26 +281,195 @@ fn assert_access_one<I: Identifier>(access: &Access<I>, id: &I, desc: &str) {
 
 impl<I: Identifier> AccessControlList<I> {
     pub fn assert_read_access_to_all(&self, ids: &[I]) {
+        #[cfg(fontc_verif)]
+        ids.iter().for_each(|id| verif::record_access("R", id));
         assert_access_many(AccessCheck::All, &self.read_access, ids, "read");
     }
 
     pub fn assert_read_access_to_any(&self, ids: &[I]) {
+        #[cfg(fontc_verif)]
+        ids.iter().for_each(|id| verif::record_access("R", id));
         assert_access_many(AccessCheck::Any, &self.read_access, ids, "read");
     }
 
     pub fn assert_read_access(&self, id: &I) {
+        #[cfg(fontc_verif)]
+        verif::record_access("R", id);
         assert_access_one(&self.read_access, id, "read");
     }
 
     pub fn assert_write_access_to_all(&self, ids: &[I]) {
+        #[cfg(fontc_verif)]
+        ids.iter().for_each(|id| verif::record_access("W", id));
         assert_access_many(AccessCheck::All, &self.write_access, ids, "write");
     }
 
     pub fn assert_write_access_to_any(&self, ids: &[I]) {
+        #[cfg(fontc_verif)]
+        ids.iter().for_each(|id| verif::record_access("W", id));
         assert_access_many(AccessCheck::Any, &self.write_access, ids, "write");
     }
 
     pub fn assert_write_access(&self, id: &I) {
+        #[cfg(fontc_verif)]
+        verif::record_access("W", id);
         assert_access_one(&self.write_access, id, "write");
+    }
+}
+
+/// Verification hooks: an append-only event log and seeded scheduling jitter.
+///
+/// Only compiled with `--cfg fontc_verif`; inert unless `FONTC_VERIF_TRACE` /
+/// `FONTC_VERIF_JITTER` are set in the environment.
+#[cfg(fontc_verif)]
+pub mod verif {
+    use std::{
+        cell::RefCell,
+        fmt::Write as _,
+        fs::{File, OpenOptions},
+        io::Write as _,
+        sync::{
+            Mutex, OnceLock,
+            atomic::{AtomicU64, Ordering},
+        },
+    };
+
+    struct Sink {
+        n: u64,
+        file: File,
+    }
+
+    static SINK: OnceLock<Option<Mutex<Sink>>> = OnceLock::new();
+    static JITTER: OnceLock<Option<(u64, u64)>> = OnceLock::new();
+    static JITTER_CALLS: AtomicU64 = AtomicU64::new(0);
+
+    thread_local! {
+        static ACTOR: RefCell<String> = const { RefCell::new(String::new()) };
+    }
+
+    fn sink() -> Option<&'static Mutex<Sink>> {
+        SINK.get_or_init(|| {
+            let path = std::env::var_os("FONTC_VERIF_TRACE")?;
+            let file = OpenOptions::new()
+                .create(true)
+                .append(true)
+                .open(path)
+                .ok()?;
+            Some(Mutex::new(Sink { n: 0, file }))
+        })
+        .as_ref()
+    }
+
+    /// True if an event log was requested for this process.
+    pub fn enabled() -> bool {
+        sink().is_some()
+    }
+
+    /// Who performs the accesses recorded from this thread from now on; returns the previous actor.
+    pub fn set_actor(actor: String) -> String {
+        ACTOR.with(|a| std::mem::replace(&mut *a.borrow_mut(), actor))
+    }
+
+    pub fn actor() -> String {
+        ACTOR.with(|a| {
+            let a = a.borrow();
+            if a.is_empty() {
+                "main".to_string()
+            } else {
+                a.clone()
+            }
+        })
+    }
+
+    /// JSON string literal for `s`.
+    pub fn js(s: &str) -> String {
+        let mut out = String::with_capacity(s.len() + 2);
+        out.push('"');
+        for c in s.chars() {
+            match c {
+                '"' => out.push_str("\\\""),
+                '\\' => out.push_str("\\\\"),
+                '\n' => out.push_str("\\n"),
+                '\r' => out.push_str("\\r"),
+                '\t' => out.push_str("\\t"),
+                c if (c as u32) < 0x20 => {
+                    let _ = write!(out, "\\u{:04x}", c as u32);
+                }
+                c => out.push(c),
+            }
+        }
+        out.push('"');
+        out
+    }
+
+    /// JSON object `{"id":..,"disc":..}` identifying one context item / job.
+    pub fn jid<I: super::Identifier>(id: &I) -> String {
+        format!(
+            "{{\"id\":{},\"disc\":{}}}",
+            js(&format!("{id:?}")),
+            js(id.discriminant())
+        )
+    }
+
+    /// Append one event. `fields` is the inside of a JSON object, e.g. `"job":{..},"ok":true`.
+    ///
+    /// The sequence number is taken under the sink lock so file order is sequence order.
+    pub fn record(kind: &str, fields: &str) {
+        let Some(sink) = sink() else {
+            return;
+        };
+        let actor = actor();
+        let Ok(mut sink) = sink.lock() else {
+            return;
+        };
+        sink.n += 1;
+        let sep = if fields.is_empty() { "" } else { "," };
+        let line = format!(
+            "{{\"n\":{},\"t\":{},\"actor\":{}{sep}{fields}}}\n",
+            sink.n,
+            js(kind),
+            js(&actor)
+        );
+        let _ = sink.file.write_all(line.as_bytes());
+    }
+
+    pub fn record_access<I: super::Identifier>(op: &str, id: &I) {
+        if !enabled() {
+            return;
+        }
+        record("acc", &format!("\"op\":{},\"item\":{}", js(op), jid(id)));
+    }
+
+    /// Sleep a seeded pseudo-random time at a named suspension point.
+    ///
+    /// Active only if `FONTC_VERIF_JITTER=<seed>:<max_us>` is set.
+    pub fn jitter(point: &str) {
+        let Some((seed, max_us)) = *JITTER.get_or_init(|| {
+            let v = std::env::var("FONTC_VERIF_JITTER").ok()?;
+            let (seed, max_us) = v.split_once(':')?;
+            Some((seed.parse().ok()?, max_us.parse().ok()?))
+        }) else {
+            return;
+        };
+        if max_us == 0 {
+            return;
+        }
+        let k = JITTER_CALLS.fetch_add(1, Ordering::Relaxed);
+        let mut x = seed
+            ^ k.wrapping_mul(0x9E37_79B9_7F4A_7C15)
+            ^ point
+                .bytes()
+                .fold(0u64, |h, b| h.wrapping_mul(31).wrapping_add(b as u64));
+        // splitmix64
+        x = x.wrapping_add(0x9E37_79B9_7F4A_7C15);
+        x = (x ^ (x >> 30)).wrapping_mul(0xBF58_476D_1CE4_E5B9);
+        x = (x ^ (x >> 27)).wrapping_mul(0x94D0_49BB_1331_11EB);
+        x ^= x >> 31;
+        // three calls in four do not sleep, so most jobs run at full speed and a few are late
+        if x & 3 != 0 {
+            return;
+        }
+        let us = (x >> 2) % (max_us + 1);
+        std::thread::sleep(std::time::Duration::from_micros(us));
     }
 }
